@@ -85,8 +85,13 @@ def _b(h, v):
     elif isinstance(v, float):
         h.update(np.float64(v).tobytes())
     else:
-        a = np.asarray(v)
-        h.update(str(a.dtype).encode()); h.update(str(a.shape).encode()); h.update(np.ascontiguousarray(a).tobytes())
+        a = np.ascontiguousarray(np.asarray(v))
+        h.update(str(a.dtype).encode()); h.update(str(a.shape).encode())
+        if a.dtype == np.longdouble and a.dtype.itemsize == 16 and np.finfo(np.longdouble).nmant == 63:
+            # x87 extended precision: 10 value bytes + 6 padding bytes whose content is unspecified (equal values can differ there)
+            h.update(a.reshape(-1).view(np.uint8).reshape(-1, 16)[:, :10].tobytes())
+        else:
+            h.update(a.tobytes())
 
 
 def canon(a, extra=()):
@@ -276,7 +281,9 @@ class Trajectory(object):
         return self.rows[i]            # raises IndexError outside [-len, len)
 
     def nearest(self, q):
-        """set of admissible row indices (ties accept either neighbour)"""
+        """set of admissible row indices (ties accept either neighbour; a tie is one to within the rounding of a distance
+        |t - q| formed in the precision of the recorded times: two units of that precision relative to the distance)"""
         d = [abs(float(LD(t) - LD(q))) for t, _ in self.rows]
         m = min(d)
-        return [i for i, x in enumerate(d) if x == m]
+        eps = float(np.finfo(np.asarray(self.rows[0][0]).dtype).eps) if np.asarray(self.rows[0][0]).dtype.kind == "f" else 2.0 ** -52
+        return [i for i, x in enumerate(d) if x <= m * (1 + 2 * eps)]
